@@ -72,4 +72,14 @@ PROPS = {
         ],
         "trusted_base": ["Model/Tempering.v transcription of tempering_step / perform_swaps / swap_on_chunks / relative_weight / HamInfo::eq"],
     },
+    "C15": {
+        "harness_cmd": "c15",
+        "property_files": ["C15.v"],
+        "expected_theorems": ["C15_edge_term", "C15_transverse_term", "C15_field_term", "C15_energy_constant"],
+        "assumptions": [
+            "the trajectory clause is checked for the default option set (Metropolis diagonal update, no RVB): into_qmc does not carry heat-bath tables or the RVB flag and the property does not quantify over options",
+            "trajectory equality for h = 0 is decided by lock-step runs of the two real samplers plus the whole-call replays of C06/C12 (both follow their models), not by a Coq theorem",
+        ],
+        "trusted_base": ["Model/Convert.v transcription of IntoQmc::into_qmc"],
+    },
 }
